@@ -110,7 +110,7 @@ func encode(thread *starlark.Thread, b *starlark.Builtin, args starlark.Tuple, k
 		}
 	}
 
-	path := make([]unsafe.Pointer, 0, 8)
+	path := make([]pathItem, 0, 8)
 
 	var emit func(x starlark.Value) error
 	emit = func(x starlark.Value) error {
@@ -118,7 +118,7 @@ func encode(thread *starlark.Thread, b *starlark.Builtin, args starlark.Tuple, k
 		// It is only necessary to push/pop the item when it might contain
 		// itself (i.e. the last three switch cases), but omitting it in the other
 		// cases did not show significant improvement on the benchmarks.
-		if ptr := pointer(x); ptr != nil {
+		if ptr := pointer(x); ptr.ptr != nil {
 			if pathContains(path, ptr) {
 				return fmt.Errorf("cycle in JSON structure")
 			}
@@ -261,18 +261,32 @@ func encodeIndent(thread *starlark.Thread, b *starlark.Builtin, args starlark.Tu
 	return starlark.String(buf.String()), nil
 }
 
-func pointer(i any) unsafe.Pointer {
+// A pathItem identifies a container on the path from the root.
+// Slices of one array (such as t and t[:1], for a tuple t) share
+// their address without being the same value, so the length is part
+// of a slice's identity.
+type pathItem struct {
+	ptr unsafe.Pointer
+	len int
+}
+
+func pointer(i any) pathItem {
 	v := reflect.ValueOf(i)
 	switch v.Kind() {
-	case reflect.Pointer, reflect.Chan, reflect.Map, reflect.UnsafePointer, reflect.Slice:
+	case reflect.Slice:
+		if v.Len() == 0 {
+			return pathItem{} // an empty slice contains nothing
+		}
+		return pathItem{unsafe.Pointer(v.Pointer()), v.Len()}
+	case reflect.Pointer, reflect.Chan, reflect.Map, reflect.UnsafePointer:
 		// TODO(adonovan): use v.Pointer() when we drop go1.17.
-		return unsafe.Pointer(v.Pointer())
+		return pathItem{unsafe.Pointer(v.Pointer()), 0}
 	default:
-		return nil
+		return pathItem{}
 	}
 }
 
-func pathContains(path []unsafe.Pointer, item unsafe.Pointer) bool {
+func pathContains(path []pathItem, item pathItem) bool {
 	return slices.Contains(path, item)
 }
 
